@@ -371,3 +371,23 @@ Proof.
     intros s' e _. destruct (h e) eqn:He; [apply (Hh e p He)|exact I].
   - intros o Ho s. apply awp_call; [apply Ho|]. intros r s' Hv _. destruct r; auto.
 Defined.
+
+(* ---------------------------------------------------------------- there and back *)
+(* moving a tree to a free place and back again is the identity on the whole world *)
+Lemma strip_under_app d rest : (rest = [] \/ exists r, rest = c_slash :: r) -> under d (d ++ rest) = true.
+Proof. intros H. unfold under. rewrite strip_intro; [reflexivity|exact H]. Qed.
+
+Lemma mv_tree_back w src dst :
+  (forall q, under dst q = true -> w q = None) ->
+  forall q, mv_tree (mv_tree w src dst) dst src q = w q.
+Proof.
+  intros Hfree q. unfold mv_tree at 1.
+  destruct (strip src q) as [rest|] eqn:Es.
+  - (* q is in the source tree: it comes back from dst ++ rest *)
+    pose proof (strip_rest_shape _ _ _ Es) as Sh. apply strip_app in Es. subst q.
+    unfold mv_tree. rewrite (strip_intro dst rest Sh). reflexivity.
+  - destruct (under dst q) eqn:Ed.
+    + (* q is in the destination tree: empty before, empty after *) symmetry. apply Hfree. exact Ed.
+    + unfold mv_tree. unfold under in Ed. destruct (strip dst q) eqn:E2; [discriminate|].
+      unfold under. rewrite Es. reflexivity.
+Qed.
